@@ -5,7 +5,7 @@
    mapping with distinct values and prefix-free indices of any widths, compute placeholder.
    Only statements; proofs in theories/SchcCodec.v. *)
 From Coq Require Import ZArith List Bool.
-From MS Require Import PyBase Bits Schc SchcSpec SchcCodec.
+From MS Require Import PyBase Buffer Bits BufferAbs Schc SchcSpec SchcCodec SchcBytes SchcRefine.
 Import ListNotations.
 Open Scope Z_scope.
 
@@ -41,6 +41,17 @@ Proof. exact (decompress_layout ct r d vs rs payload). Qed.
 Theorem c03_no_compression ct r d pkt : rule_fds r = [] -> decompress ct (rule_id r ++ pkt) r d = Ok pkt.
 Proof. exact (decompress_nocompression ct r d pkt). Qed.
 
+(* composition with the byte-level Buffer model: the decompressor written with the Buffer operations (SchcBytes.bdecompress:
+   b_getitem with Python slice clamping, prefix_value, b_eq, b_add) rebuilds the same bits, for SCHC buffers of either padding side *)
+Theorem c03_decompress_bytes ct s r d p : canon s -> canon_rule r ->
+  forallb (fun rf => match br_cda rf with Compute => false | _ => true end) (bselect_fds d (brule_fds r)) = true ->
+  decompress ct (abs s) (abs_rule abs r) d = Ok p ->
+  exists x, bdecompress s r d = Ok x /\ canon x /\ abs x = p.
+Proof. exact (bdecompress_refines ct s r d p). Qed.
+Theorem c03_decode_var_bytes s : canon s ->
+  exists r n, bdecode_var s = Ok (r, n) /\ canon r /\ decode_var (abs s) = (abs r, n).
+Proof. exact (bdecode_var_refines s). Qed.
+
 (* non-vacuity: mapping with indices of mixed width, hit on the last entry, then a variable-length value *)
 Example c03_ex :
   let rf1 := mkrfd (mkfid P_Other 1) 2 0 Bi (TVmap [([true;true],[false]); ([false;true],[true;false]); ([false;false],[true;true])]) MO_mapping MappingSent in
@@ -56,3 +67,5 @@ Print Assumptions c03_fields.
 Print Assumptions c03_decompress_nocompute.
 Print Assumptions c03_decompress.
 Print Assumptions c03_no_compression.
+Print Assumptions c03_decompress_bytes.
+Print Assumptions c03_decode_var_bytes.
